@@ -224,7 +224,8 @@ def rule_resize(ctx, repo):
               "new Tf slots are no longer filled with ones", r.W())
     e = F.method(repo, "DAE", "_extend_or_slice", DAE)
     a = [x.arg for x in e.fn.args.args]
-    ok = Q.has("%s = np.append(%s, %s(%s - len(%s)))" % (a[1], a[1], a[3], a[2], a[1]), e.fn) and Q.has("%s = %s[0:%s]" % (a[1], a[1], a[2]), e.fn)
+    ok = Q.has("%s = np.append(%s, %s(%s - len(%s)))" % (a[1], a[1], a[3], a[2], a[1]), e.fn) and \
+        (Q.has("%s = %s[0:%s]" % (a[1], a[1], a[2]), e.fn) or Q.has("%s = %s[:%s]" % (a[1], a[1], a[2]), e.fn))
     t = e.tests("%s > len(%s)" % (a[2], a[1]))
     ctx.check(ok and bool(t), "C10.resize", "DAE._extend_or_slice", "growth appends (existing leading values kept), shrink slices from 0",
               "array growth no longer preserves the existing leading values (the power-flow solution would be lost at TDS start)", e.W())
